@@ -155,6 +155,12 @@ class CursorDiffs(object):
                     continue
                 if op == '=':
                     pn = self.norm(rhs)
+                    r0 = strip_casts(rhs)
+                    if pn is None and r0.get('k') == 'call' and callee_name(r0) in ('strstr', 'strchr', 'strpbrk', 'strrchr') and r0['args']:
+                        # a search result is NULL or a position at or after where the search started
+                        b = self.norm(r0['args'][0])
+                        if b and b[1] != 'nonneg':
+                            pn = (b[0], 'nonneg') if b[1] >= 0 else None
                     D = self.copy(D, c, pn[0], pn[1]) if pn else self.forget(D, c)
                 elif op in ('+=', '-='):
                     k = const_val(rhs)
@@ -163,6 +169,12 @@ class CursorDiffs(object):
                         D = self.shift(D, c, k if op == '+=' else -k)
                     elif op == '+=' and r.get('k') == 'call' and callee_name(r) in SPAN_FUNCS:
                         D = self.shift_nonneg(D, c)
+                    elif op == '+=' and r.get('k') == 'bin' and r['op'] == '+' and any(
+                            strip_casts(x).get('k') == 'call' and callee_name(strip_casts(x)) in SPAN_FUNCS and
+                            (const_val(y) or -1) >= 0 for (x, y) in ((r['l'], r['r']), (r['r'], r['l']))):
+                        # a span plus a non-negative constant
+                        kk = const_val(r['r']) if const_val(r['r']) is not None else const_val(r['l'])
+                        D = self.shift(self.shift_nonneg(D, c), c, kk)
                     else:
                         D = self.forget(D, c)
                 else:
